@@ -192,6 +192,37 @@ func checkC20(p *Prog, r *Report) {
 			ruI.OK("lib/sstls:no-fixed-index", token.NoPos, "no slice is indexed at a constant position")
 		}
 	}
+	/* The fatal reports of start-up go through the standard logger: it must
+	still write to standard error.  slog.SetDefault re-points the standard
+	logger at the slog handler (the -log file, or nowhere); log.SetOutput
+	says so outright. */
+	{
+		ruL := r.Rule("reports-reach-stderr", "nothing re-points the standard logger, through which start-up failures are reported, away from standard error (slog.SetDefault, log.SetOutput)")
+		nL := 0
+		for _, fn := range p.Funcs() {
+			eachInstr(fn, func(i ssa.Instruction) {
+				c := callCommon(i)
+				if nil == c {
+					return
+				}
+				switch n := calleeName(c); n {
+				case "log/slog.SetDefault", "log.SetOutput":
+					nL++
+					ruL.Bad(fnName(fn)+"→"+n, posOf(i), "%s re-points the standard logger: log.Fatalf's report of a start-up failure goes to the log file (or nowhere) instead of standard error, and the program exits non-zero in silence", n)
+				case "(*log.Logger).SetOutput":
+					if 0 != len(c.Args) {
+						if dc, ok := c.Args[0].(*ssa.Call); ok && "log.Default" == calleeName(dc.Common()) {
+							nL++
+							ruL.Bad(fnName(fn)+"→"+n, posOf(i), "log.Default().SetOutput re-points the standard logger away from standard error")
+						}
+					}
+				}
+			})
+		}
+		if 0 == nL {
+			ruL.OK("module:standard-logger", token.NoPos, "the standard logger is left writing to standard error")
+		}
+	}
 	checkSourcesConverted(p, r.Rule("missing-source-reported", "a Ctrl+I source which does not exist fails the conversion (C17's rule): the sources named are converted as named, not expanded as patterns first"))
 	checkCtrlIGenerator(p, r, r.Rule("ctrl-i-generator", "main's Ctrl+I generator returns Converter.From's payload and error and nothing else"))
 	/* A damaged certificate cache is a start-up failure to be reported, not
